@@ -131,6 +131,8 @@ type gmWalk struct {
 	// endpoints dialled by a rejected update (C16)
 	rolledBack []string
 	slowDial   bool
+	// names of MultiEndpoints configured at some earlier point (a removed name is an unknown name)
+	everNames map[string]bool
 }
 
 func (w *gmWalk) say(f string, a ...interface{}) { w.log = append(w.log, fmt.Sprintf(f, a...)) }
@@ -372,7 +374,15 @@ func (w *gmWalk) ctxNames() []string {
 		ks = append(ks, n)
 	}
 	sort.Strings(ks)
-	return append(names, ks...)
+	names = append(names, ks...)
+	var former []string
+	for n := range w.everNames {
+		if _, ok := w.mes[n]; !ok {
+			former = append(former, n)
+		}
+	}
+	sort.Strings(former)
+	return append(names, former...)
 }
 
 func (w *gmWalk) checkRouting(tag string) {
@@ -402,6 +412,10 @@ func (w *gmWalk) checkRouting(tag string) {
 			kind = "no-name"
 		} else if _, ok := w.mes[n]; !ok {
 			kind = "unknown-name"
+			if w.everNames[n] {
+				kind = "removed-name"
+				w.hit("C15.route:removed-name")
+			}
 		}
 		w.hit("C15.route")
 		w.hit("C15.route:" + kind)
@@ -452,6 +466,12 @@ func (w *gmWalk) checkPools(tag string) {
 }
 
 func (w *gmWalk) setModel(o *GCPMultiEndpointOptions) {
+	if w.everNames == nil {
+		w.everNames = map[string]bool{}
+	}
+	for n := range w.mes {
+		w.everNames[n] = true
+	}
 	w.mes = map[string][]string{}
 	for n, m := range o.MultiEndpoints {
 		w.mes[n] = m.Endpoints
@@ -559,6 +579,26 @@ func (w *gmWalk) update() {
 }
 
 func (w *gmWalk) closeAndCheck(baseline int) {
+	if w.rng.Intn(3) == 0 {
+		// the application closed one pool's ClientConn itself (it got it from its
+		// own DialFunc): Close() must still stop that pool's monitor
+		w.dialMu.Lock()
+		var open []*grpc.ClientConn
+		for _, cs := range w.conns {
+			for _, c := range cs {
+				if c.GetState() != connectivity.Shutdown {
+					open = append(open, c)
+				}
+			}
+		}
+		w.dialMu.Unlock()
+		if len(open) > 0 {
+			c := open[w.rng.Intn(len(open))]
+			w.say("the owner closes the ClientConn of %s before Close()", c.Target())
+			c.Close()
+			w.hit("C16.owner-closed-conn")
+		}
+	}
 	err := w.gme.Close()
 	_ = err
 	w.hit("C16.close")
